@@ -2574,6 +2574,19 @@ impl Exec {
         if let Some(e) = gi("expo") {
             o.expo = e as i32;
         }
+        // confidence as a fraction of the price, whatever the feed kind: conf_frac = n sets every interval to |price| / n;
+        // conf_frac_spot / conf_frac_ema widen only the spot or only the time-weighted interval (Pyth)
+        if let Some(nf) = gi("conf_frac").or(gi("conf_frac_spot")) {
+            if nf > 0 {
+                o.conf = (o.price.unsigned_abs() as u128 / nf as u128) as u64;
+                o.swb_std = o.swb_value.abs() / nf;
+            }
+        }
+        if let Some(nf) = gi("conf_frac").or(gi("conf_frac_ema")) {
+            if nf > 0 {
+                o.ema_conf = (o.ema_price.unsigned_abs() as u128 / nf as u128) as u64;
+            }
+        }
         if let Some(v) = gi("swb_value") {
             o.swb_value = v;
         }
